@@ -1,0 +1,12 @@
+//go:build verif
+
+package service
+
+import "github.com/gorilla/websocket"
+
+// VerifHandleConnection exposes the per-connection service loop to the
+// verification harness (built only with `-tags verif`).
+func (s *Service) VerifHandleConnection(c *websocket.Conn) { s.handleConnection(c) }
+
+// VerifClients reports how many authenticated service connections are registered.
+func (s *Service) VerifClients() int { return len(s.clients) }
